@@ -79,7 +79,7 @@ def warm_quick():
   for md in ('metrics', 'opt'):
     runs.append(('TrainLoop', f'TrainLoop_{md}.cfg', dict(workers=1, timeout=1800)))
   runs.append(('Bridge', 'Bridge_mc.cfg', dict(workers=1, timeout=900)))
-  for md in ('conv', 'convT', 'pool', 'norm'):
+  for md in ('conv', 'convT', 'pool', 'norm', 'contract'):
     runs.append(('LayerIndex', f'LayerIndex_{md}.cfg', dict(workers=1, timeout=900)))
   for md in ('rnn', 'attn'):
     runs.append(('SeqIndex', f'SeqIndex_{md}.cfg', dict(workers=1, timeout=900)))
